@@ -1718,3 +1718,33 @@ def _read_model(ex, args, f, _prev=I.get("<_ as Read>::read")):
         else:
             _store(ex, args[1], Arr(cur))
     return ok(usize(n))
+
+
+@intr("BTreeMap::get", "BTreeMap::<K, V>::get", "HashMap::get")
+def _btreemap_get(ex, args, f):
+    m = deref_all(ex, args[0])
+    i = _find_key(ex, m, deref_all(ex, args[1]))
+    if i is None:
+        return NONE
+    return some(Ref(Cell(m.vals[i])))
+
+
+@intr("std::str::<impl str>::replace", "str::replace")
+def _str_replace(ex, args, f):
+    """str::replace with a literal (concrete) pattern: left-to-right, non-overlapping, each candidate position decided by the solver"""
+    s = as_str(ex, args[0]).bytes()
+    pat = as_str(ex, args[1]).bytes()
+    to = as_str(ex, args[2]).bytes()
+    if not pat:
+        raise Unsupported("str::replace with an empty pattern")
+    out = []
+    i = 0
+    n, m = len(s), len(pat)
+    while i < n:
+        if i + m <= n and ex.decide(z3.And([a == b for a, b in zip(s[i:i + m], pat)])):
+            out += list(to)
+            i += m
+        else:
+            out.append(s[i])
+            i += 1
+    return Str(out, owned=True)
